@@ -5,8 +5,16 @@ so the seam rows `x = 8Lx`, `y = 8Ly` are listed although they are the rows `x =
 modulo the period), four deltas on the squares `(x + y) % 8 = 0` and eight on the octagons,
 wrap-around `% (8*Lx)`, `% (8*Ly)` (Python's `%` is `Int.emod`; the class divides by zero for
 `L = 0`, which is outside the family), dict assignment = `Op.insert`, qubit list DERIVED from the
-stabilizers (`Color.derivedQubits`), logical operators filtered by `is_qubit` (their `range`
-bounds mix `Lx` and `Ly` exactly as the source does).
+stabilizers (`Color.derivedQubits`), logical operators filtered by `is_qubit`: the columns `x = 3`,
+`x = 7` run over `y < 8Ly` (`range(3, 8*Ly+1, 2)`, `range(1, 8*Ly+4, 2)`), the rows `y = 5`, `y = 1`
+over `x < 8Lx` (`range(3, 8*Lx+1, 2)`, `range(1, 8*Lx+4, 2)`).
+
+Before the repair of `get_logicals_x` / `get_logicals_z` (known finding D14, fixed) the column
+`x = 7` ran over `range(1, 8*Lx+4, 2)` and the row `y = 1` over `range(1, 8*Ly+4, 2)` - the wrong
+side in both; for `Lx ≠ Ly` the listed operator was then a partial (or over-long, then filtered)
+line and anticommuted with a generator.  That code is kept as `oldLogX` / `oldLogZ` / `oldLattice`
+for the regression theorem `C01Color488Code.old_rectangular_invalid`; for `Lx = Ly` the two
+coincide definitionally.
 A stabilizer location `(x, y, p)` is `[x, y, p]` (`p = 0`: X generator, `p = 1`: Z generator of the
 same face), a qubit location `(x, y)` is `[x, y]`.
 
@@ -83,20 +91,35 @@ def qubitAxis (loc : Coord) : Option String :=
   | [_, _] => some "x"
   | _ => none
 
-/-- keys tried by the four families of logical operators -/
-def col3 (Ly : Nat) : List Coord := (pyRangeStep 3 (8 * (Ly : Int) + 1) 2).map fun y => [3, y]
-def col7 (Lx : Nat) : List Coord := (pyRangeStep 1 (8 * (Lx : Int) + 4) 2).map fun y => [7, y]
-def row5 (Lx : Nat) : List Coord := (pyRangeStep 3 (8 * (Lx : Int) + 1) 2).map fun x => [x, 5]
-def row1 (Ly : Nat) : List Coord := (pyRangeStep 1 (8 * (Ly : Int) + 4) 2).map fun x => [x, 1]
+/-- keys tried by the four families of logical operators, as a function of the number `L` of unit
+    cells that bounds the `range` (`col3`, `col7`: `y` runs, `L = Ly`; `row5`, `row1`: `x` runs,
+    `L = Lx`) -/
+def col3 (L : Nat) : List Coord := (pyRangeStep 3 (8 * (L : Int) + 1) 2).map fun y => [3, y]
+def col7 (L : Nat) : List Coord := (pyRangeStep 1 (8 * (L : Int) + 4) 2).map fun y => [7, y]
+def row5 (L : Nat) : List Coord := (pyRangeStep 3 (8 * (L : Int) + 1) 2).map fun x => [x, 5]
+def row1 (L : Nat) : List Coord := (pyRangeStep 1 (8 * (L : Int) + 4) 2).map fun x => [x, 1]
 
 /-- `get_logicals_x` -/
 def logX (Lx Ly : Nat) : List Op :=
   let isQ := isQubit Lx Ly   -- (the qubit index is built once)
-  [collect (col3 Ly) isQ Pauli.X, collect (col7 Lx) isQ Pauli.X,
-   collect (row5 Lx) isQ Pauli.X, collect (row1 Ly) isQ Pauli.X]
+  [collect (col3 Ly) isQ Pauli.X, collect (col7 Ly) isQ Pauli.X,
+   collect (row5 Lx) isQ Pauli.X, collect (row1 Lx) isQ Pauli.X]
 
 /-- `get_logicals_z` -/
 def logZ (Lx Ly : Nat) : List Op :=
+  let isQ := isQubit Lx Ly
+  [collect (row5 Lx) isQ Pauli.Z, collect (row1 Lx) isQ Pauli.Z,
+   collect (col3 Ly) isQ Pauli.Z, collect (col7 Ly) isQ Pauli.Z]
+
+/-- `get_logicals_x` BEFORE the repair: `for y in range(1, 8*Lx+4, 2)` on the column `x = 7`,
+    `for x in range(1, 8*Ly+4, 2)` on the row `y = 1` -/
+def oldLogX (Lx Ly : Nat) : List Op :=
+  let isQ := isQubit Lx Ly
+  [collect (col3 Ly) isQ Pauli.X, collect (col7 Lx) isQ Pauli.X,
+   collect (row5 Lx) isQ Pauli.X, collect (row1 Ly) isQ Pauli.X]
+
+/-- `get_logicals_z` BEFORE the repair (same two bounds) -/
+def oldLogZ (Lx Ly : Nat) : List Op :=
   let isQ := isQubit Lx Ly
   [collect (row5 Lx) isQ Pauli.Z, collect (row1 Ly) isQ Pauli.Z,
    collect (col3 Ly) isQ Pauli.Z, collect (col7 Lx) isQ Pauli.Z]
@@ -121,5 +144,13 @@ def lattice (Lx Ly : Nat) : Lattice where
   getStab := fun s => (getStabilizer? Lx Ly s).getD []
   logX := logX Lx Ly
   logZ := logZ Lx Ly
+
+/-- the lattice as the class built it before the repair of the logical operators -/
+def oldLattice (Lx Ly : Nat) : Lattice where
+  qubits := qubits Lx Ly
+  stabs := stabs Lx Ly
+  getStab := fun s => (getStabilizer? Lx Ly s).getD []
+  logX := oldLogX Lx Ly
+  logZ := oldLogZ Lx Ly
 
 end Panqec.Color488Code
